@@ -507,6 +507,34 @@ theorem prod_nd_eq_numpy (d : Nat) (ks nb : List Nat) (blocks : List (List Int))
     show redProd.aggregate = (fun xs : List Int => xs.foldr (· * ·) 1) from rfl, this]
   exact congrArg (fun v => some [([], v)]) (iprod_flatten blocks)
 
+theorem any_nd_eq_numpy (d : Nat) (ks nb : List Nat) (blocks : List (List Int)) (h : AxesOk (d + 1) ks nb)
+    (hl : blocks.length = (cartesian (nb.map List.range)).length) :
+    redAny.run nb (ks.map some) false (d + 1) blocks = some [([], bor (blocks.flatten.map (· != 0)))] := by
+  unfold Red.run
+  show ((blocks.mapM fun b => some (bor (b.map (· != 0)))).bind _) = _
+  rw [mapM_some]
+  simp only [Option.bind_some]
+  have := gridReduce_eq_fold bor_comm d ks nb (blocks.map fun b => bor (b.map (· != 0))) h (by simpa using hl)
+  rw [show redAny.combine = (fun xs : List Bool => xs.foldr (· || ·) false) from rfl,
+    show redAny.aggregate = (fun xs : List Bool => xs.foldr (· || ·) false) from rfl, this]
+  have hb := bor_flatten (blocks.map (List.map (· != 0)))
+  simp only [List.map_map, ← List.map_flatten] at hb
+  exact congrArg (fun v => some [([], v)]) hb
+
+theorem all_nd_eq_numpy (d : Nat) (ks nb : List Nat) (blocks : List (List Int)) (h : AxesOk (d + 1) ks nb)
+    (hl : blocks.length = (cartesian (nb.map List.range)).length) :
+    redAll.run nb (ks.map some) false (d + 1) blocks = some [([], band (blocks.flatten.map (· != 0)))] := by
+  unfold Red.run
+  show ((blocks.mapM fun b => some (band (b.map (· != 0)))).bind _) = _
+  rw [mapM_some]
+  simp only [Option.bind_some]
+  have := gridReduce_eq_fold band_comm d ks nb (blocks.map fun b => band (b.map (· != 0))) h (by simpa using hl)
+  rw [show redAll.combine = (fun xs : List Bool => xs.foldr (· && ·) true) from rfl,
+    show redAll.aggregate = (fun xs : List Bool => xs.foldr (· && ·) true) from rfl, this]
+  have hb := band_flatten (blocks.map (List.map (· != 0)))
+  simp only [List.map_map, ← List.map_flatten] at hb
+  exact congrArg (fun v => some [([], v)]) hb
+
 /-- generic n-d statement for any reduction whose combine/aggregate is the fold of a commutative monoid -/
 theorem nd_tree_eq_fold {β : Type} {op : β → β → β} {e : β} (hM : IsCommMonoid op e) (d : Nat) (ks nb : List Nat)
     (parts : List β) (h : AxesOk (d + 1) ks nb) (hl : parts.length = (cartesian (nb.map List.range)).length) :
